@@ -16,8 +16,8 @@ class C20(Prop):
           "line equals one record (start_at, top, resting state) for start_at followed by exactly "
           "one record (signal, previous state, new state) per step in which the model takes a "
           "transition, none for internally handled or ignored events, in order, last 500. "
-          "Non-trivial: the history mixes >=1 transition, >=1 internally handled event and >=1 "
-          "ignored event; distinct = distinct case digests.")
+          "Non-trivial: the history mixes >=1 transition with >=1 internally handled or ignored "
+          "event; distinct = distinct case digests.")
   assumptions = [
     "trace lines are parsed with the documented layout '[time] [name] e->SIG() from->to'",
     "histories whose handler actions run in another order than the model predicts are excluded",
@@ -74,7 +74,7 @@ class C20(Prop):
       if m.d.overflowed:
         break
     classes.extend("kind_" + k for k in sorted(kinds))
-    stats.case(case, kinds >= {"trans", "handled", "ignored"}, classes)
+    stats.case(case, "trans" in kinds and len(kinds) >= 2, classes)
 
   def compare(self, run, where):
     got = spytrace.parse_trace(run.real.chart.trace())
